@@ -45,7 +45,7 @@ var defaultNames = map[string]string{
 }
 
 type stats struct {
-	yields, gos, selects, mapRanges, mapRangesSkipped, files, mapAccesses, mapHoists int
+	yields, gos, selects, mapRanges, mapRangesSkipped, files, mapAccesses, mapHoists, resets int
 }
 
 var st stats
@@ -147,6 +147,61 @@ func main() {
 			st.files++
 		}
 	}
+	// scalar state kept in package level variables (counters, flags) belongs
+	// to the process: every simulated run must start from the values a fresh
+	// process has. One generated file per package restores them.
+	for _, p := range loaded {
+		var lines []string
+		for i, f := range p.Syntax {
+			if strings.HasSuffix(p.CompiledGoFiles[i], "_test.go") {
+				continue
+			}
+			for _, d := range f.Decls {
+				gd, ok := d.(*ast.GenDecl)
+				if !ok || gd.Tok != token.VAR {
+					continue
+				}
+				for _, sp := range gd.Specs {
+					vs := sp.(*ast.ValueSpec)
+					for k, n := range vs.Names {
+						if n.Name == "_" {
+							continue
+						}
+						obj := p.TypesInfo.Defs[n]
+						if obj == nil {
+							continue
+						}
+						b, ok := obj.Type().Underlying().(*types.Basic)
+						if !ok || b.Info()&(types.IsNumeric|types.IsBoolean) == 0 {
+							continue
+						}
+						val := "0"
+						if b.Info()&types.IsBoolean != 0 {
+							val = "false"
+						}
+						if len(vs.Values) > 0 {
+							if len(vs.Values) != len(vs.Names) {
+								continue
+							}
+							tv, ok := p.TypesInfo.Types[vs.Values[k]]
+							if !ok || tv.Value == nil {
+								continue // not a constant: leave it alone
+							}
+							val = tv.Value.ExactString()
+						}
+						lines = append(lines, fmt.Sprintf("\t\t%s = %s", n.Name, val))
+					}
+				}
+			}
+		}
+		if len(lines) == 0 || len(p.CompiledGoFiles) == 0 {
+			continue
+		}
+		sort.Strings(lines)
+		src := "package " + p.Name + "\n\nimport \"zzsim\"\n\nfunc init() {\n\tzzsim.OnRunStart(func() {\n" + strings.Join(lines, "\n") + "\n\t})\n}\n"
+		outs = append(outs, out{filepath.Join(filepath.Dir(p.CompiledGoFiles[0]), "zz_runstart_gen.go"), []byte(src)})
+		st.resets += len(lines)
+	}
 	if len(refusals) > 0 {
 		for _, r := range refusals {
 			fmt.Fprintf(os.Stderr, "simrewrite: refused: %s\n", r)
@@ -170,8 +225,8 @@ func main() {
 			fatal(err)
 		}
 	}
-	fmt.Printf("simrewrite: files=%d yields=%d go=%d selects=%d mapranges=%d mapranges_unordered=%d mapaccesses=%d hoisted=%d\n",
-		st.files, st.yields, st.gos, st.selects, st.mapRanges, st.mapRangesSkipped, st.mapAccesses, st.mapHoists)
+	fmt.Printf("simrewrite: files=%d yields=%d go=%d selects=%d mapranges=%d mapranges_unordered=%d mapaccesses=%d hoisted=%d globals_reset=%d\n",
+		st.files, st.yields, st.gos, st.selects, st.mapRanges, st.mapRangesSkipped, st.mapAccesses, st.mapHoists, st.resets)
 }
 
 func fatal(err error) {
